@@ -80,6 +80,9 @@ func checkC04(c *Ctx) {
 	checkParsePointerAssertions(c, ev, gen)
 
 	checkOptionalFile(c, ev)
+	// client and server must read the same flags off a parameter (the client skips what the server requires …)
+	checkParamFlags(c, "C04.R1.param-flags", gen)
+	checkHeaderWriterGuards(c, ev)
 	checkIndexedJoins(c, ev)
 	checkInnerArraysKept(c, "C04.R1.inner-arrays-kept", ev)
 	checkFacadeFormats(c, ev)
@@ -786,5 +789,35 @@ func checkDefaultMedia(c *Ctx, gen *packages.Package) {
 		})
 		c.Check(ok, rule, "generator."+side.fn+" › default media type of the runtime", c.posOf(gen, fd.Pos()), why,
 			why+": when the spec has no global list and only some operations declare media types, the others are served with application/json by the runtime but the generated API registers no JSON serializer (500: no producer / 415)")
+	}
+}
+
+
+// checkHeaderWriterGuards: the server writes a response header whenever its rendered value is not
+// empty; any further condition on the value (non-zero, non-default) makes a legitimate value — false,
+// 0 — disappear from the wire, and the client then substitutes the header's declared default.
+func checkHeaderWriterGuards(c *Ctx, ev *tmpl.Evaluator) {
+	rule := "C04.R2.header-writer"
+	c.Rule(rule, "every rw.Header().Set of the server's response writer is guarded by the emptiness test of the rendered value only", 1)
+	n := 0
+	for _, tn := range ev.F.Names() {
+		l := linearOf(c, ev, tn)
+		if l == nil || l.Tree.Asset != "server/responses.gotmpl" {
+			continue
+		}
+		for k, oc := range l.Find(regexp.MustCompile(`rw\.Header\(\)\.Set\(`)) {
+			prev := strings.TrimRight(l.Text[:oc.Start], " \t\n")
+			if i := strings.LastIndexByte(prev, '\n'); i >= 0 {
+				prev = prev[i+1:]
+			}
+			prev = strings.TrimSpace(prev)
+			n++
+			ok := regexp.MustCompile(`^if [^&|]+ != "" \{$`).MatchString(strings.TrimSpace(strings.SplitN(prev, "//", 2)[0]))
+			c.Check(ok, rule, fmt.Sprintf("server/responses.gotmpl › %s › header write #%d", tn, k+1), l.Tree.PosStr(oc.Pos), "under `if <rendered value> != \"\" {` alone",
+				"the header is written under `"+prev+"`: a value that renders to a non-empty string (false, 0) but fails the extra test is not sent, and the client reports the header's default instead")
+		}
+	}
+	if n == 0 {
+		c.Unk(rule, "server/responses.gotmpl › header writes", "", "no rw.Header().Set found")
 	}
 }
